@@ -154,3 +154,162 @@ pub fn c01_histories(out: &str, thorough: bool, seed: u64) {
     let mut fo = fs::File::create(out).expect("out");
     writeln!(fo, "{}", res).unwrap();
 }
+
+/// C04 on optimised states: symmetry residual of the crystal a chain of stages returns.
+/// For every reference operation q of the group: W_cart = M W M^-1 must be orthogonal (q is a
+/// rigid motion or reflection of the current cell) and must map the set of placements onto
+/// itself modulo the lattice, linear parts included.  (Floating point; tolerance 1e-9.)
+pub fn c04_histories(out: &str, thorough: bool, seed: u64) {
+    use crate::oracle::ref_ops;
+    use nalgebra::Matrix3;
+    use packing::{LJShape2, LineShape, MolecularShape2, PackedState, PotentialState, Transform2};
+    std::panic::set_hook(Box::new(|_| {}));
+    let mut rng = suites::seeded(seed, 404);
+    let count = if thorough { 280 } else { 42 };
+    let mut checked = 0usize;
+    let mut worst: f64 = 0.;
+    let mut failures: Vec<Value> = vec![];
+    let mut samples: Vec<String> = vec![];
+    for k in 0..count {
+        let gname = GROUPS[k % GROUPS.len()];
+        let hard = (k / GROUPS.len()) % 2 == 0;
+        let shape = if hard {
+            [ShapeSpec::Polygon(4), ShapeSpec::Polygon(5), ShapeSpec::Trimer(0.637556, 120., 1.), ShapeSpec::Circle]
+                [(k / 14) % 4]
+                .clone()
+        } else {
+            [ShapeSpec::Trimer(0.637556, 120., 1.), ShapeSpec::Circle][(k / 14) % 2].clone()
+        };
+        let idx = rng.gen_range(0, 100);
+        let user = Req {
+            steps: if thorough { 2000 } else { 600 },
+            inner: 100,
+            kt_start: *[0.1, 0.5].choose(&mut rng).unwrap(),
+            kt_finish: None,
+            kt_ratio: Some(0.1),
+            max_step: *[0.02, 0.1, 0.4].choose(&mut rng).unwrap(),
+            convergence: None,
+            seed: idx,
+        };
+        let mut reqs = suites::cli_chain(&user, idx);
+        reqs[0].steps = 300;
+        let mut runs = vec![];
+        let desc = format!("#{} {} {} {}", k, gname, if hard { "hard" } else { "lj" }, shape.describe());
+        suites::run_chain_for(&desc, gname, hard, &shape, &reqs, &mut runs);
+        let last = match runs.last() {
+            Some(r) if r.panicked.is_none() => r,
+            _ => continue,
+        };
+        // rebuild the returned state from its parameter vector
+        let base = if hard {
+            base_json(gname, &shape)
+        } else {
+            let g = suites::group(gname);
+            match &shape {
+                ShapeSpec::Circle => PotentialState::from_group(LJShape2::circle(), &g)
+                    .ok()
+                    .and_then(|s| serde_json::to_value(&s).ok()),
+                ShapeSpec::Trimer(r, a, d) => PotentialState::from_group(LJShape2::from_trimer(*r, *a, *d), &g)
+                    .ok()
+                    .and_then(|s| serde_json::to_value(&s).ok()),
+                _ => None,
+            }
+        };
+        let base = match base {
+            Some(b) => b,
+            None => continue,
+        };
+        let j = patch(&base, family_of(gname), &last.end_vec);
+        let carts: Option<Vec<Transform2>> = if hard {
+            match &shape {
+                ShapeSpec::Polygon(_) | ShapeSpec::Radial(_) => serde_json::from_value::<PackedState<LineShape>>(j.clone())
+                    .ok()
+                    .map(|s| s.cartesian_positions().collect()),
+                _ => serde_json::from_value::<PackedState<MolecularShape2>>(j.clone())
+                    .ok()
+                    .map(|s| s.cartesian_positions().collect()),
+            }
+        } else {
+            serde_json::from_value::<PotentialState<LJShape2>>(j.clone())
+                .ok()
+                .map(|s| s.cartesian_positions().collect())
+        };
+        let carts = match carts {
+            Some(c) => c,
+            None => continue,
+        };
+        let a = j["cell"]["length"].as_f64().unwrap();
+        let b = a * j["cell"]["ratio"].as_f64().unwrap();
+        let th = j["cell"]["angle"].as_f64().unwrap();
+        // lattice matrix M (columns A, B) and its inverse
+        let (m11, m12, m21, m22) = (a, b * th.cos(), 0., b * th.sin());
+        let det = m11 * m22 - m12 * m21;
+        let inv = [m22 / det, -m12 / det, -m21 / det, m11 / det];
+        let mut residual: f64 = 0.;
+        let mats: Vec<Matrix3<f64>> = carts.iter().map(|t| (*t).into()).collect();
+        for q in ref_ops(gname) {
+            // W in cartesian space
+            let mw = [m11 * q[0] + m12 * q[2], m11 * q[1] + m12 * q[3], m21 * q[0] + m22 * q[2], m21 * q[1] + m22 * q[3]];
+            let wc = [
+                mw[0] * inv[0] + mw[1] * inv[2],
+                mw[0] * inv[1] + mw[1] * inv[3],
+                mw[2] * inv[0] + mw[3] * inv[2],
+                mw[2] * inv[1] + mw[3] * inv[3],
+            ];
+            // orthogonality: Wc^T Wc = I
+            let o = [
+                wc[0] * wc[0] + wc[2] * wc[2] - 1.,
+                wc[0] * wc[1] + wc[2] * wc[3],
+                wc[1] * wc[1] + wc[3] * wc[3] - 1.,
+            ];
+            for x in o.iter() {
+                residual = residual.max(x.abs());
+            }
+            let tc = [m11 * q[4] + m12 * q[5], m21 * q[4] + m22 * q[5]];
+            for p in mats.iter() {
+                // image of placement p under (Wc, tc)
+                let pos = [wc[0] * p[(0, 2)] + wc[1] * p[(1, 2)] + tc[0], wc[2] * p[(0, 2)] + wc[3] * p[(1, 2)] + tc[1]];
+                let lin = [
+                    wc[0] * p[(0, 0)] + wc[1] * p[(1, 0)],
+                    wc[0] * p[(0, 1)] + wc[1] * p[(1, 1)],
+                    wc[2] * p[(0, 0)] + wc[3] * p[(1, 0)],
+                    wc[2] * p[(0, 1)] + wc[3] * p[(1, 1)],
+                ];
+                // nearest placement modulo the lattice
+                let mut best = std::f64::INFINITY;
+                for r in mats.iter() {
+                    let d = [pos[0] - r[(0, 2)], pos[1] - r[(1, 2)]];
+                    // fractional difference
+                    let f = [inv[0] * d[0] + inv[1] * d[1], inv[2] * d[0] + inv[3] * d[1]];
+                    let fr = [f[0] - f[0].round(), f[1] - f[1].round()];
+                    let back = [m11 * fr[0] + m12 * fr[1], m21 * fr[0] + m22 * fr[1]];
+                    let dl = [
+                        lin[0] - r[(0, 0)],
+                        lin[1] - r[(0, 1)],
+                        lin[2] - r[(1, 0)],
+                        lin[3] - r[(1, 1)],
+                    ];
+                    let mut e = back[0].abs().max(back[1].abs());
+                    for x in dl.iter() {
+                        e = e.max(x.abs());
+                    }
+                    best = best.min(e);
+                }
+                residual = residual.max(best);
+            }
+        }
+        checked += 1;
+        worst = worst.max(residual);
+        if samples.len() < 3 {
+            samples.push(format!("{} | residual {:.2e}", desc, residual));
+        }
+        if !(residual <= 1e-9) {
+            failures.push(json!({"what": format!("optimised crystal lacks the symmetry of {} (residual {:.3e})", gname, residual),
+                "state": {"run": desc, "state_json": j}}));
+        }
+    }
+    let res = json!({"optimised_states_checked": checked, "worst_residual": worst, "samples": samples,
+        "failures": failures.len(), "first_failures": failures.iter().take(10).collect::<Vec<_>>()});
+    let mut fo = fs::File::create(out).expect("out");
+    writeln!(fo, "{}", res).unwrap();
+}
